@@ -28,7 +28,10 @@ Post ==
   /\ Check("truncation flags", \A i \in 1..NW, a \in AG : out'[i][a].present => R(i, a).trunc = out'[i][a].trunc)
   /\ Check("info", \A i \in 1..NW, a \in AG : out'[i][a].present => R(i, a).tick = out'[i][a].tick)
 
-TReset == Ev.op = "reset" /\ Reset /\ Post
+\* reset(seed = s) of the vector environment resets sub-environment i with seed s + i - 1 (a single environment with s itself)
+TReset == /\ Ev.op = "reset" /\ Reset /\ Post
+          /\ Check("every sub-environment is reset with the seed it was given (seed + position)",
+                   \A i \in 1..NW : Ev.seeds[i] = T.cfg.seed + i - 1)
 TStep  == /\ Ev.op = "step"
           /\ Step([i \in 1..NW |-> [a \in AG |-> Ev.actions[i][a]]])
           /\ Post
